@@ -4,10 +4,10 @@ from props.common import TRUSTED_BASE, ASSUMPTIONS as _A
 
 ID = 'C15'
 LEAN_MODULES = ['HidVerif.Props.C15']
-THEOREMS = ['HidVerif.Props.C15.' + n for n in ('div_guard_observer', 'index_guard_observer', 'length_guard_observer',
+THEOREMS = ['HidVerif.Props.C15.' + n for n in ('core_unchecked_same', 'div_guard_observer', 'index_guard_observer', 'length_guard_observer',
                                                  'entry_guard_observer')]
 TRUSTED = TRUSTED_BASE + ['Compiler/Templates.lean guard templates, tied to the generator by the conformance check']
-ASSUMPTIONS = _A + ['that the unchecked build is the checked build minus the guard fragments is validated by running both builds, '
+ASSUMPTIONS = _A + ['PROVED for the core sub-language (core_unchecked_same, tied by the core correspondence suite in both build modes); beyond it, that the unchecked build is the checked build minus the guard fragments is validated by running both builds, '
                     'not proved (the dynamic-array guard and the return protection have no template theorem yet)']
 RULE = ('both builds of every fault-free program of the sequential and time-travel generators, all word sizes; the unchecked VM '
         'trace must equal the checked VM trace (and the reference); non-trivial = fault-free program whose two builds differ in '
@@ -21,7 +21,9 @@ def run(ctx):
         for tt in (False, True):
             j, _ = suites.gen_jobs(ctx, n // 2, tt=tt, w=w, faults=0.01, prefix='w%d_%s' % (w, 't' if tt else 's'))
             jobs += j
+    core_jobs = suites.core_suite(ctx, ctx.budget(160, 2500), configs=((2, 100, False), (2, 100, True), (4, 30, False), (4, 30, True)), faults=0.0)
     suites.conformance(ctx, jobs[:ctx.budget(300, 2000)])
+    jobs += [j for j in core_jobs if not j[5]]
     tally, bad, res = suites.differential(ctx, jobs, None, kinds_bad=(), do_shrink=False, label='checked')
     faults = ('stack_overflow', 'division_by_zero', 'out_of_bounds', 'nonlocal_preempt')
     clean = [j for j in jobs if j[0] in res and 'vm' in res[j[0]] and res[j[0]]['vm'].outcome == 'terminal'
